@@ -75,6 +75,17 @@ def pool(rng, quick):
           ["ctrl", 0, ["ctrl", 1, ["named", "X", [2]]]], ["ctrl", 0, ["ctrl", 1, ["bsr", 2, [1.0, 0.0, 0.0], PI, 0.0]]],
           ["ctrl", 0, ["mat", [1, 2], kron_mat(I2, I2)]], ["ctrl", 0, ["mat", [1, 2], scaled(kron_mat(I2, I2), -1)]],
           ["ctrl", 1, ["mat", [0, 2], cnot]], ["ctrl", 1, ["mat", [0, 2], scaled(cnot, -1)]]]
+    # the bare target of every controlled gate above, on the same operands, and the same operation written as a matrix
+    # over all three qubits: compared with the controlled forms on a three-qubit union
+    P += [["mat", [1, 2], cnot], ["named", "CNOT", [1, 2]], ["mat", [1, 2], kron_mat(I2, I2)], ["named", "CNOT", [2, 1]],
+          ["mat", [2, 1], cnot_rev], ["named", "X", [2]], ["bsr", 2, [1.0, 0.0, 0.0], PI, 0.0], ["named", "I", [0]]]
+    bare = gen.build_stmt(["mat", [1, 2], cnot])
+    full = union_op(bare, {0: 0, 1: 1, 2: 2}, 3)
+    rows = [[[float(x.real), float(x.imag)] for x in row] for row in full]
+    for ops in ([0, 1, 2], [2, 1, 0]):
+        cand = gen.build_stmt(["mat", ops, rows])
+        if oracles.phase_dist(union_op(cand, {0: 0, 1: 1, 2: 2}, 3), full) < 1e-12:
+            P.append(["mat", ops, rows])
     if not quick:
         for _ in range(25):
             P.append(gen.rand_gate_spec(rng, 3, max_ctrl=2))
@@ -134,6 +145,25 @@ def run(ctx):
                 ctx.oracle_fail("pairs", case, f"equality is not symmetric: a==b is {im}, b==a is {py_eq(b, a)}", eq)
         if i == j and im is not True:
             ctx.oracle_fail("pairs", case, "equality is not reflexive", eq)
+    # history: every answer given above is asked for again, in another order, after all the other comparisons have run
+    first = {}
+    for (i, j) in pairs:
+        first.setdefault((i, j), None)
+    again = list(first)
+    rng.shuffle(again)
+    answers = {(i, j): py_eq(objs[i], objs[j]) for (i, j) in again}
+    fresh = {}
+    n_hist = 0
+    for (i, j) in again[:ctx.pick(1500, 20000)]:
+        fa, fb = gen.build_stmt(P[i]), gen.build_stmt(P[j])
+        key = (i, j)
+        fresh[key] = py_eq(fa, fb)
+        n_hist += 1
+        if fresh[key] != answers[key]:
+            case = {"left": P[i], "right": P[j], "left_kind": type(fa).__name__, "right_kind": type(fb).__name__, "kind": "history"}
+            ctx.seen(case)
+            ctx.oracle_fail("history", case, f"the same comparison answered {answers[key]} and then {fresh[key]} on freshly built gates", None)
+    ctx.suite("history", cases=n_hist)
     ctx.sample({"left": P[0], "right": P[1], "equal": py_eq(objs[0], objs[1])})
     # circuit equality is statement-wise
     n_c = 0
